@@ -27,12 +27,45 @@ pub fn model_run(prog: &Program) -> Option<ModelRun> {
 pub fn nonvoid(vals: &[String]) -> Vec<String> {
     vals.iter()
         .filter(|v| *v != "#void")
-        .map(|v| v.replace("#<closure>", "#<procedure>").replace("#<function>", "#<procedure>").replace("#<continuation>", "#<procedure>"))
+        .map(|v| v.replace("#<closure>", "#<procedure>").replace("#<function>", "#<procedure>").replace("#<continuation>", "#<procedure>").replace("#S:Continuation(#<procedure>)", "#<procedure>"))
         .collect()
 }
 
 /// Compare one engine step with the model's result for the same piece.
+/// A mutated variable's storage cell itself (instead of its contents) reached user code:
+/// the engine shows a box (`'#&v` printed, `#b(v)` in a value, "found: '#&" in a message)
+/// where the model has none.
+fn raw_box_leak(model: &PieceResult, st: &StepResult) -> bool {
+    let model_has_box = model.values.iter().any(|v| v.contains("#b(")) || model.stdout.contains("#&");
+    if model_has_box {
+        return false;
+    }
+    st.stdout.contains("'#&") || st.values.iter().any(|v| v.contains("#b(")) || (st.outcome == Outcome::Err && st.err_msg.contains("'#&"))
+}
+
+/// The engine shows a void where the model has a value: a lost result (typically an error that
+/// native code stashed and nobody picked up).
+fn void_result(model: &PieceResult, st: &StepResult) -> bool {
+    let model_void = model.values.iter().any(|v| v.contains("#void") && v != "#void") || model.stdout.contains("#<void>");
+    if model_void {
+        return false;
+    }
+    st.stdout.contains("#<void>")
+        || (st.outcome == Outcome::Err && st.err_msg.contains("#<void>"))
+        || (st.outcome == Outcome::Ok && st.values.iter().any(|v| v.contains("#void") && v != "#void"))
+        || (st.outcome == Outcome::Ok && nonvoid(&st.values).len() < nonvoid(&model.values).len())
+}
+
 pub fn compare_piece(tag: &str, model: &PieceResult, st: &StepResult, ctxt: &str) -> PropResult {
+    let r = compare_piece_inner(tag, model, st, ctxt);
+    match r {
+        Err(f) if st.outcome != Outcome::Panic && raw_box_leak(model, st) => Err(Failure::new(format!("{}:raw-box-leak", tag), f.detail)),
+        Err(f) if st.outcome != Outcome::Panic && void_result(model, st) => Err(Failure::new(format!("{}-void", f.sig), f.detail)),
+        r => r,
+    }
+}
+
+fn compare_piece_inner(tag: &str, model: &PieceResult, st: &StepResult, ctxt: &str) -> PropResult {
     match st.outcome {
         Outcome::Panic => {
             return Err(Failure::new(format!("{}:panic", tag), format!("{}\nengine panicked: {}", ctxt, st.err_msg)));
@@ -86,13 +119,76 @@ pub enum RunVerdict {
     Inconclusive,
 }
 
+/// How a program enters the engine.  `Repl` = `Engine::run` / `compile_and_run_raw_program`
+/// (embedding API, REPL): calls of builtins stay generic global calls because globals may be
+/// redefined later.  `Module` = the program is the body of a module that a one-line main
+/// program requires — this is how `steel file.scm` runs a file — and there the compiler
+/// resolves non-shadowed builtins statically and emits the specialised opcodes (ADD, SUB, CAR,
+/// LIST, immediate/register forms ...).
+#[derive(Clone, Copy, Debug, PartialEq, Eq)]
+pub enum Entry {
+    Repl,
+    Module,
+}
+
+/// (module source, main source): every expression statement `e` becomes `(define res<k> e)`,
+/// all `res<k>` are provided, and the main program requires the module and lists them.
+pub fn program_to_module(prog: &Program) -> (String, String) {
+    let mut body = String::new();
+    let mut names = vec![];
+    for t in &prog.forms {
+        match t {
+            Top::Define(..) => body.push_str(&render_top(t)),
+            Top::Expr(e) => {
+                let n = format!("res{}", names.len());
+                body.push_str(&format!("(define {} {})", n, render_expr(e)));
+                names.push(n);
+            }
+        }
+        body.push('\n');
+    }
+    if names.is_empty() {
+        // `provide` needs at least one identifier
+        body.push_str("(define vdummy 0)\n");
+    }
+    let module = format!("(provide {})\n{}", if names.is_empty() { "vdummy".to_string() } else { names.join(" ") }, body);
+    let main = format!("(require \"vmain\")\n{}", names.join("\n"));
+    (module, main)
+}
+
 /// Run a single-piece program in one configuration and compare with the model.
 pub fn check_program(tag: &str, ws: &mut Workers, cfg: &Config, prog: &Program, model: &PieceResult, pre: &[Step]) -> RunVerdict {
-    let src = render_program(prog);
+    check_program_entry(tag, ws, cfg, prog, model, pre, Entry::Repl)
+}
+
+pub fn check_program_entry(
+    tag: &str,
+    ws: &mut Workers,
+    cfg: &Config,
+    prog: &Program,
+    model: &PieceResult,
+    pre: &[Step],
+    entry: Entry,
+) -> RunVerdict {
     let mut steps: Vec<Step> = pre.to_vec();
-    steps.push(Step::Eval { src: src.clone() });
-    let r = ws.run(cfg, &Case::new(steps));
-    let ctxt = format!("config: {}\nprogram:\n{}", cfg.label(), src);
+    let src = match entry {
+        Entry::Repl => {
+            let src = render_program(prog);
+            steps.push(Step::Eval { src: src.clone() });
+            src
+        }
+        Entry::Module => {
+            let (m, main) = program_to_module(prog);
+            steps.push(Step::Module { name: "vmain".into(), src: m.clone() });
+            steps.push(Step::Eval { src: main.clone() });
+            format!(";; module vmain\n{}\n;; main\n{}", m, main)
+        }
+    };
+    let extra = if entry == Entry::Module { 2 } else { 1 };
+    let mut case = Case::new(steps);
+    case.timeout_ms = 6000;
+    let r = ws.run(cfg, &case);
+    let ctxt = format!("config: {} entry: {:?}\nprogram:\n{}", cfg.label(), entry, src);
     match r.end {
         End::Done => {}
         End::Watchdog | End::Oom => return RunVerdict::Inconclusive,
@@ -109,7 +205,7 @@ pub fn check_program(tag: &str, ws: &mut Workers, cfg: &Config, prog: &Program, 
     let Some(st) = r.steps.last() else {
         return RunVerdict::Done(Err(Failure::new(format!("{}:noresult", tag), ctxt)));
     };
-    if r.steps.len() != pre.len() + 1 {
+    if r.steps.len() != pre.len() + extra {
         return RunVerdict::Done(Err(Failure::new(format!("{}:prelude-failed", tag), format!("{}\n{:?}", ctxt, st))));
     }
     let mut res = compare_piece(tag, model, st, &ctxt);
